@@ -27,7 +27,7 @@ namespace Lace.Editor
 inductive Res (α : Type) where
   | ok (a : α)
   | panic (site : String)
-  deriving Repr
+  deriving Repr, DecidableEq
 
 namespace Res
 @[inline] def bind {α β : Type} (x : Res α) (f : α → Res β) : Res β :=
